@@ -463,6 +463,11 @@ fn gen_bytes(u: &mut U) -> Vec<u8> {
             v
         }
         4 => vec![[0x00u8, 0x0a, 0x2d, 0x80, 0xff][u.below(5)]],
+        6 => {
+            // larger than one read() chunk / one pipe buffer: the whole input must be used on every channel
+            let n = [8191usize, 8192, 8193, 12_000, 20_000, 65_535, 65_536, 65_537, 100_000][u.below(9)];
+            crate::engine::Prng::new(u.u64()).bytes(n)
+        }
         5 => {
             // bytes that are not UTF-8
             let n = u.range(1, 40);
@@ -1169,7 +1174,7 @@ fn drain_timeouts(ctx: &mut Ctx) {
 
 pub fn run(ctx: &mut Ctx) {
     set_statics(ctx);
-    ctx.rule = "One case = (mnemonic of 12/15/18/21/24 words from uniform or all-0/all-1 entropy) x (passphrase: empty, ASCII incl. leading dash/blank/newline, non-ASCII from an NFKD-sensitive pool or random scalars of 13 Unicode ranges) x (selector: none, --account-index i with i in {0,1,2,2^31-1,2^31-2,<100,uniform 31-bit}, --hd-path of depth 1..8 from the C03/C14 valid-path generator or the default path spelled out, or both selectors) x (each of the four options independently as `--opt V`, `--opt=V`, `-m V` or environment variable MNEMONIC/PASSWORD/ACCOUNT_INDEX/HD_PATH; option order permuted) x (subcommand: address, export, public-key, sign message|transaction|transaction --signature-only|typeddata|raw, hash data|message|transaction|typeddata|typeddata --message-hash) x (payload by file path or `-` = stdin) x payload (bytes incl. empty/non-UTF-8/trailing newline; transactions of all kinds from the C06 generator, legacy-without-chain-id signed with --allow-missing-relay-protection; simple EIP-712 documents: one struct of atomic members, at most one nested struct and one array, any of the 31 domains; raw digests from the C05 digest strategy spelled 0x-lower (decided) or bare/upper-case (unspecified)). Oracle: the reference stack end to end (bit-string BIP-39 -> written-out PBKDF2 over NFKD(passphrase) -> BIP-32 on the harness's own secp256k1 -> EIP-55 / 0x secret / 0x04||X||Y; RFC 6979 reference signature over the reference EIP-191 / transaction / EIP-712 digest or the raw digest as given; signed-transaction bytes from the reference RLP model); stdout must be exactly that line plus newline with exit 0. Every `sign message|transaction|typeddata` case also runs the matching `hash` command on the same payload (independent channel), which must print the digest that was signed; `hash data` = Keccak-256 of the bytes; `--message-hash` = reference hashStruct(message). A third of the account cases re-run the configuration with every flag-provided option moved to the environment and vice versa: exit status and stdout must be identical. Both selectors (any flag/env combination): error exit, empty stdout. Before the generated cases an exhaustive matrix runs every account subcommand x selector kind (none/index/path/both) x flag-or-environment for each given option with a non-empty passphrase and index != 0 (288 configurations). Non-trivial: account case with index != 0 or a path or a passphrase or an environment-provided option (distinct by argv+env+stdin), or a hash case with a non-empty payload (distinct by command, channel, payload).".into();
+    ctx.rule = "One case = (mnemonic of 12/15/18/21/24 words from uniform or all-0/all-1 entropy) x (passphrase: empty, ASCII incl. leading dash/blank/newline, non-ASCII from an NFKD-sensitive pool or random scalars of 13 Unicode ranges) x (selector: none, --account-index i with i in {0,1,2,2^31-1,2^31-2,<100,uniform 31-bit}, --hd-path of depth 1..8 from the C03/C14 valid-path generator or the default path spelled out, or both selectors) x (each of the four options independently as `--opt V`, `--opt=V`, `-m V` or environment variable MNEMONIC/PASSWORD/ACCOUNT_INDEX/HD_PATH; option order permuted) x (subcommand: address, export, public-key, sign message|transaction|transaction --signature-only|typeddata|raw, hash data|message|transaction|typeddata|typeddata --message-hash) x (payload by file path or `-` = stdin) x payload (bytes incl. empty/non-UTF-8/trailing newline/8 KiB..100 KB inputs that exceed one read chunk or pipe buffer; transactions of all kinds from the C06 generator, legacy-without-chain-id signed with --allow-missing-relay-protection; simple EIP-712 documents: one struct of atomic members, at most one nested struct and one array, any of the 31 domains; raw digests from the C05 digest strategy spelled 0x-lower (decided) or bare/upper-case (unspecified)). Oracle: the reference stack end to end (bit-string BIP-39 -> written-out PBKDF2 over NFKD(passphrase) -> BIP-32 on the harness's own secp256k1 -> EIP-55 / 0x secret / 0x04||X||Y; RFC 6979 reference signature over the reference EIP-191 / transaction / EIP-712 digest or the raw digest as given; signed-transaction bytes from the reference RLP model); stdout must be exactly that line plus newline with exit 0. Every `sign message|transaction|typeddata` case also runs the matching `hash` command on the same payload (independent channel), which must print the digest that was signed; `hash data` = Keccak-256 of the bytes; `--message-hash` = reference hashStruct(message). A third of the account cases re-run the configuration with every flag-provided option moved to the environment and vice versa: exit status and stdout must be identical. Both selectors (any flag/env combination): error exit, empty stdout. Before the generated cases an exhaustive matrix runs every account subcommand x selector kind (none/index/path/both) x flag-or-environment for each given option with a non-empty passphrase and index != 0 (288 configurations). Non-trivial: account case with index != 0 or a path or a passphrase or an environment-provided option (distinct by argv+env+stdin), or a hash case with a non-empty payload (distinct by command, channel, payload).".into();
     ctx.assumptions = vec![
         "hmac/sha2/sha3 primitives are correct; NFKD of the passphrase is taken from the unicode-normalization crate (its use by hdwallet is C02's subject)".into(),
         "the phrase is passed in canonical single-space form (other layouts are C01's subject)".into(),
